@@ -47,6 +47,12 @@ PairLoops == {ForN(n, X, l, o, r, <<NOut(P(V(n)))>>, NoElse) :
                 o \in {NoOpt, OptCont, Opt(I(1))}, r \in BOOLEAN}
              \cup {NText("|"), Assign("x", P(RangeE(I(1), I(2))))}
 
+\* triples: sequences of three loops over the same key, so that a later loop
+\* continues from (or restarts after) what the earlier ones consumed
+TripleLoops == {ForN("i", X, l, o, FALSE, <<NOut(P(V("i")))>>, NoElse) :
+                  l \in {NoOpt, Opt(I(0)), Opt(I(1)), Opt(I(2))}, o \in {NoOpt, OptCont}}
+               \cup {ForN("i", X, Opt(I(1)), Opt(I(9)), FALSE, <<NOut(P(V("i")))>>, NoElse), NText("|")}
+
 \* nests: inner loops reading parentloop, break/continue in the inner loop only
 Inner(b) == ForN("j", RangeE(I(1), I(2)), NoOpt, NoOpt, FALSE, b, NoElse)
 InnerBodies == {<<NOut(P(VP("forloop", "index"))), NOut(P([k |-> "var", segs |-> <<[t |-> "k", v |-> "forloop"], [t |-> "k", v |-> "parentloop"], [t |-> "k", v |-> "index"]>>]))>>,
@@ -59,6 +65,7 @@ Nests == {ForN("i", X, l, NoOpt, r, <<NOut(P(FL("index"))), Inner(b), NText(";")
 
 MCPool == CASE Variant = "single" -> Singles
             [] Variant = "pairs" -> PairLoops
+            [] Variant = "triples" -> TripleLoops
             [] Variant = "nest" -> Nests \cup {NOut(P(VP("forloop", "index")))}
 MCPoolAt(i) == MCPool
 MCPartials == <<>>
